@@ -10,17 +10,15 @@ def run(ctx):
         c.tlc_l1(ctx, "Tms.tla", "MC_Tms_%s.cfg" % w, expect_violation=w, workers=2)
     if not q:
         c.tlc_l1(ctx, "Tms.tla", "MC_Tms_big.cfg", workers=8, timeout=2400, xmx="16g")
-    plan = [("Gen_Tms.cfg", {"NH": 5}, 500, 10, 4)] if q else \
-           [("Gen_Tms.cfg", {"NH": 5}, 5000, 10, 5), ("Gen_Tms_5.cfg", {"NH": 5}, 20000, 10, 4)]
-    for cfg, cfgobj, walks, wl, ah in plan:
-        edges = ctx.path(cfg + ".edges")
-        g = c.tlc_gen(ctx, "Tms.tla", cfg, edges, cfgobj=cfgobj, timeout=2400)
-        r = c.replay(ctx, "tms", edges, walks=walks, walklen=wl, allhist=ah)
-        c.log("  %s: %d edges / %d states; %d behaviours, %d steps, %d failures" % (
-            cfg, g["edges"], g["states"], r["behaviours"], r["steps"], r["failures_n"]))
+    M = "Tms.tla"
+    if q:
+        c.graph_leg(ctx, M, "tms", "Gen_Tms.cfg", {"NH": 5}, 500, 10, 4, "Sim_Tms.cfg", 1500, 11, sim_cfgobj={"NH": 7})
+    else:
+        c.graph_leg(ctx, M, "tms", "Gen_Tms.cfg", {"NH": 5}, 5000, 10, 5, "Sim_Tms.cfg", 40000, 11, sim_cfgobj={"NH": 7})
+        c.graph_leg(ctx, M, "tms", "Gen_Tms_5.cfg", {"NH": 5}, 20000, 10, 4, timeout=3000)
     ctx.cov["rule"] = ("behaviours = shortest path + one edge for every (state,label) of the TLC-dumped lock-step Tms graph "
                        "(ideal greatest-fixpoint retraction x as-built ordered cascade), all op sequences to the all-histories "
-                       "depth, seeded walks to 10 ops, run on IncrementalEngine (insert_explicit, insert_logical, "
+                       "depth, seeded walks, TLC-simulated behaviours of 10 ops over 7 handles, run on IncrementalEngine (insert_explicit, insert_logical, "
                        "tms_mut().add_logical_justification, retract); after every op working-memory liveness by handle and in "
                        "the full listing, is_logical/is_explicit and has_valid_justification of live logical facts are compared")
     ctx.assumptions += ["every premise is live when its justification is recorded (from the property's quantifier)",
